@@ -16,7 +16,7 @@ EXTENDS Integers, Sequences, FiniteSets, TLC
 
 Families == {"network", "dirnetwork", "geonetwork", "interacting", "resnetwork", "rp", "rn", "crp", "jrp",
              "jrn", "climate", "climatedata", "surrogates", "visibility", "tsonis", "hilbert", "isrn", "ccn", "escn",
-             "spearman", "partialcorr", "mutualinfo", "havlin"}
+             "spearman", "partialcorr", "mutualinfo", "havlin", "ctsonis"}
 
 Init0(f) ==
   IF f \in {"network", "dirnetwork", "interacting", "visibility"} THEN [A |-> 1, W |-> 0, LA |-> 0]
@@ -24,7 +24,7 @@ Init0(f) ==
   ELSE IF f = "resnetwork" THEN [R |-> 1]
   ELSE IF f \in {"rp", "rn"} THEN [MODE |-> "threshold", P |-> 1]
   ELSE IF f \in {"crp", "jrp", "jrn"} THEN [MODE |-> "threshold", P |-> 1]
-  ELSE IF f \in {"climate", "ccn", "escn"} THEN [MODE |-> "threshold", P |-> 1, NL |-> 0]
+  ELSE IF f \in {"climate", "ccn", "escn", "ctsonis"} THEN [MODE |-> "threshold", P |-> 1, NL |-> 0]
   ELSE IF f \in {"tsonis", "spearman", "partialcorr", "mutualinfo"} THEN [MODE |-> "threshold", P |-> 1, NL |-> 0, WO |-> 0]
   ELSE IF f = "havlin" THEN [MODE |-> "threshold", P |-> 1, NL |-> 0, MD |-> 1]
   ELSE IF f = "hilbert" THEN [MODE |-> "threshold", P |-> 1, NL |-> 0, DIR |-> 1]
@@ -62,7 +62,7 @@ Alphabet(f) ==
   ELSE IF f = "crp" THEN RpMut
   ELSE IF f = "isrn" THEN RpMut
   \* two-layer and event-based climate networks: the similarity-network mutators
-  ELSE IF f \in {"ccn", "escn"} THEN ClimMut
+  ELSE IF f \in {"ccn", "escn", "ctsonis"} THEN ClimMut
   \* data-driven climate networks: the similarity itself is recomputed by set_winter_only / set_directed
   ELSE IF f \in {"tsonis", "spearman", "partialcorr", "mutualinfo"}
        THEN ClimMut \cup {<<"set_winter_only", 0>>, <<"set_winter_only", 1>>}
